@@ -24,11 +24,13 @@ QUICK_SESSIONS = {
     "default": 40,
     "C17": 480,
     "C19": 640,
+    "C31": 320,
 }
 THOROUGH_SESSIONS = {
     "default": 480,
     "C17": 12000,
     "C19": 16000,
+    "C31": 8000,
 }
 
 
